@@ -354,6 +354,10 @@ func c17Run(c *core.Ctx, ops []c17Op) (key string, ok bool) {
 				return "", false
 			}
 			rr := s.Call("textDocument/semanticTokens/range", fmt.Sprintf(`{"textDocument":{"uri":%s},"range":{"start":{"line":0,"character":0},"end":{"line":1,"character":0}}}`, wire.Q(u)))
+			if !rr.OK() && last {
+				c.Violate("history|range request fails|"+firstLine(rr.Err+rr.Panic), "every request of a history is answered",
+					fmt.Sprintf("after %v the range request failed: %s %s", ops, rr.Err, firstN(rr.Panic, 1500)), c17Case{Part: "history", Ops: ops})
+			}
 			rangeResult, checkRange = rr.Result, true
 		case "full":
 			if !open[op.Doc] {
@@ -361,6 +365,10 @@ func c17Run(c *core.Ctx, ops []c17Op) (key string, ok bool) {
 			}
 			data, id, bad := semFull(s, u)
 			if bad != "" {
+				if last {
+					c.Violate("history|full request fails|"+firstLine(bad), "every request of a history is answered",
+						fmt.Sprintf("after %v the full request failed: %s", ops, firstN(bad, 1500)), c17Case{Part: "history", Ops: ops})
+				}
 				return "", false
 			}
 			cl.adopt(data, id)
@@ -395,6 +403,13 @@ func c17Run(c *core.Ctx, ops []c17Op) (key string, ok bool) {
 					DeleteCount int   `json:"deleteCount"`
 					Data        []int `json:"data"`
 				} `json:"edits"`
+			}
+			if !r.OK() {
+				if last {
+					c.Violate("history|delta request fails|"+firstLine(r.Err+r.Panic), "every request of a history is answered",
+						fmt.Sprintf("after %v the delta request failed: %s %s", ops, r.Err, firstN(r.Panic, 1500)), c17Case{Part: "history", Ops: ops})
+				}
+				return "", false
 			}
 			if err := json.Unmarshal([]byte(r.Result), &v); err != nil {
 				return "", false
